@@ -8,3 +8,7 @@ package logicalplan
 //@ typeinv *logicalplan.FilteredSelector f: f.VectorSelector != nil
 // A RemoteExecution node always carries the engine it is to be sent to (makeSubQueries).
 //@ typeinv *logicalplan.RemoteExecution r: r.Engine != nil
+
+//@ func New
+//@   trusted wraps promql.PreprocessExpr (dependency) and setOffsetForAtModifier
+//@   ensures result != nil
